@@ -3,7 +3,7 @@ CONSTANTS
   AckMode = "shaped"
   ThrMode = "fixed"
   EmptyMode = "fixed"
-  CfgSet <- SchedCfgs
+  CfgSet <- SchedCfgsB
   Ids = {1, 2}
   Hosts = {"h0", ""}
   Lens = {0, 1, 2, 3}
@@ -11,10 +11,10 @@ CONSTANTS
   MaxOpens = 2
   MaxBytes = 8
   MaxDgrams = 2
-  Depth = 40
-  EmitEvery = 40
+  Depth = 60
+  EmitEvery = 20
   Faults = {}
-  WithBind = FALSE
+  WithBind = TRUE
   WithBridge = FALSE
 INVARIANTS Emit NoViolation
 CHECK_DEADLOCK FALSE
